@@ -200,7 +200,7 @@ func init() {
 	})
 
 	register(&Rule{
-		ID: "C03.R4", Props: []string{"C03"}, Min: 3,
+		ID: "C03.R4", Props: []string{"C03"}, Min: 2, // one per call that renders a member: v-if and the else members (two calls today, one when v-else-if and v-else share their tail)
 		Doc: "at most one branch per chain: in the chain walker every call that evaluates a chain member is followed by a return on all paths — no path leads from one such call to another member's evaluation or condition",
 		Run: func(p *Prog, c *Ctx) {
 			fn := p.MustFn("(*vuego.Vue).evalElseIfChain")
